@@ -311,6 +311,8 @@ class ElectionProfile:
             self._bltParse(data)
         except StopIteration:
             raise ElectionProfileError('bad blt file: unexpected end-of-file')
+        except ValueError as err:   # int() refuses digit strings beyond sys.get_int_max_str_digits()
+            raise ElectionProfileError('bad blt file: %s' % err)
 
     def _bltParse(self, data):
         '''
